@@ -131,6 +131,7 @@ pub struct Blocking(&'static str);
 impl Blocking {
     #[inline]
     pub fn new(site: &'static str) -> Self {
+        hit(site, 0, [1, 0, 0, 0]);
         blocking(true, site);
         Blocking(site)
     }
@@ -138,7 +139,8 @@ impl Blocking {
 impl Drop for Blocking {
     #[inline]
     fn drop(&mut self) {
-        blocking(false, self.0)
+        blocking(false, self.0);
+        hit(self.0, 0, [0, 0, 0, 0]);
     }
 }
 
